@@ -474,6 +474,16 @@ func GenPair(seed uint64, o GenOpts) *Pair {
 	}
 
 	// tree relations
+	if r.Chance(0.12) {
+		// paths differing only by letter case (legal on a case-sensitive file system)
+		d1, _ := g.content(r.Range64(1, 3*BS))
+		d2, _ := g.content(r.Range64(1, 3*BS))
+		p.Old.PutFile("Case/Twin.bin", d1)
+		p.Old.PutFile("Case/twin.bin", d2)
+		p.New.PutFile("Case/Twin.bin", d2)
+		p.New.PutFile("Case/twin.bin", d1)
+		p.feat("case-twins-swapped")
+	}
 	if r.Chance(0.3) {
 		p.Old.PutDir("emptyold")
 		p.feat("emptydir-removed")
